@@ -17,7 +17,7 @@ def cell(i, x, level=1, ctype=0, growth=0.0, divvol="inf", minvol=1e-19, K=2.5e3
 def scenario(name, cells, script, dt_ns=100, S_ns=1000, T_ns=6000, threads=4, seed=1, in_string=False, level_lmin=None, max_iter=400):
     lvl = max(c["level"] for c in cells)
     lmin = level_lmin if level_lmin else (0.25 * R if lvl >= 2 else 0.45 * R)
-    return {"name": name, "dt": dt_ns * NS, "T": T_ns * NS, "S": S_ns * NS, "lmin": lmin, "cut_adh": 5e-7, "cut_rep": 5e-7,
+    return {"name": name, "dt": dt_ns * NS, "T": T_ns * NS, "S": S_ns * NS, "lmin": lmin, "cut_adh": 5e-7, "cut_rep": 4e-7,
             "damping": 5e-10, "swap": False, "threads": threads, "seed": seed, "stats_in_string": in_string, "max_iter": max_iter,
             "ts1": T_ns // S_ns + 1, "ticks": {"P": dt_ns, "Q": S_ns, "T": T_ns}, "cells": cells, "script": script}
 
